@@ -3790,9 +3790,10 @@ xpath_bit_is_set(struct lyxp_set **args, uint32_t UNUSED(arg_count), struct lyxp
     LY_CHECK_RET(rc);
 
     set_fill_boolean(set, 0);
-    if (args[0]->used) {
+    if (args[0]->used && (args[0]->val.nodes[0].type == LYXP_NODE_ELEM)) {
         leaf = (struct lyd_node_term *)args[0]->val.nodes[0].node;
-        if ((leaf->schema->nodetype & (LYS_LEAF | LYS_LEAFLIST)) && (leaf->value.realtype->basetype == LY_TYPE_BITS)) {
+        if (leaf->schema && (leaf->schema->nodetype & (LYS_LEAF | LYS_LEAFLIST)) &&
+                (leaf->value.realtype->basetype == LY_TYPE_BITS)) {
             LYD_VALUE_GET(&leaf->value, bits);
             LY_ARRAY_FOR(bits->items, u) {
                 if (!strcmp(bits->items[u]->name, args[1]->val.str)) {
@@ -4121,10 +4122,10 @@ xpath_deref(struct lyxp_set **args, uint32_t UNUSED(arg_count), struct lyxp_set 
     }
 
     lyxp_set_free_content(set);
-    if (args[0]->used) {
+    if (args[0]->used && (args[0]->val.nodes[0].type == LYXP_NODE_ELEM)) {
         leaf = (struct lyd_node_term *)args[0]->val.nodes[0].node;
         sleaf = (struct lysc_node_leaf *)leaf->schema;
-        if (sleaf->nodetype & (LYS_LEAF | LYS_LEAFLIST)) {
+        if (sleaf && (sleaf->nodetype & (LYS_LEAF | LYS_LEAFLIST))) {
             if (sleaf->type->basetype == LY_TYPE_LEAFREF) {
                 /* find leafref target */
                 r = lyplg_type_resolve_leafref((struct lysc_type_leafref *)sleaf->type, &leaf->node, &leaf->value, set->tree,
@@ -4364,10 +4365,10 @@ xpath_enum_value(struct lyxp_set **args, uint32_t UNUSED(arg_count), struct lyxp
     }
 
     set_fill_number(set, NAN);
-    if (args[0]->used) {
+    if (args[0]->used && (args[0]->val.nodes[0].type == LYXP_NODE_ELEM)) {
         leaf = (struct lyd_node_term *)args[0]->val.nodes[0].node;
         sleaf = (struct lysc_node_leaf *)leaf->schema;
-        if ((sleaf->nodetype & (LYS_LEAF | LYS_LEAFLIST)) && (sleaf->type->basetype == LY_TYPE_ENUM)) {
+        if (sleaf && (sleaf->nodetype & (LYS_LEAF | LYS_LEAFLIST)) && (sleaf->type->basetype == LY_TYPE_ENUM)) {
             set_fill_number(set, leaf->value.enum_item->value);
         }
     }
